@@ -930,6 +930,9 @@ func init() {
 	})
 	reg("leiosfetch", "NewMsgBlockTxsFull", 3, func(rt *rapid.T, c *msgCase) {
 		p, bm, txs := genPoint(rt), genBitmaps(rt), genRawList(rt)
+		if rapid.IntRange(0, 5).Draw(rt, "nilBitmaps") == 0 {
+			bm = nil // "no bitmaps" the way Go callers usually say it
+		}
 		c.Msg = leiosfetch.NewMsgBlockTxsFull(p, bm, txs)
 		c.Desc = fmt.Sprintf("%s %v %d txs", descPoint(p), bm, len(txs))
 	})
